@@ -424,6 +424,19 @@ theorem free_lock_has_serial_value (sys : Sys) (sched : List Nat) (l : Nat) :
   intro s h
   exact ((inv_reachable sys sched).free l h).symm
 
+theorem ThreadOk.reg_of_write {s : State} {S : SState} {t l : Nat} {f : Rmw} {rest : List Micro}
+    (h : ThreadOk s S t) (hprog : (s.thr t).prog = .write l f :: rest) : (s.thr t).reg = s.vals l := by
+  cases h with
+  | idle hp ho hr =>
+    rw [hprog] at hp
+    cases htodo : S.todo t with
+    | nil => rw [htodo] at hp; cases hp
+    | cons c r => rw [htodo, compile_cons] at hp; cases hp
+  | acquired c hp ho hv hr => rw [hprog] at hp; cases hp
+  | readDone c hp ho hreg hv hr =>
+    rw [hprog] at hp; injection hp with h1 _; injection h1 with h1 _; subst h1; exact hreg
+  | written l' hp ho hv hr => rw [hprog] at hp; cases hp
+
 /-- … and nobody changes it between the acquisition and the closure's own write: the value the
 closure has read (and is going to return) is still the value of the lock -/
 theorem read_value_is_current (sys : Sys) (sched : List Nat) (t l : Nat) (f : Rmw) (rest : List Micro) :
@@ -431,16 +444,7 @@ theorem read_value_is_current (sys : Sys) (sched : List Nat) (t l : Nat) (f : Rm
     (s.thr t).prog = .write l f :: rest → (s.thr t).reg = s.vals l := by
   rw [shape_is_lock_call_unlock]
   intro s hprog
-  cases (inv_reachable sys sched).thr t with
-  | idle hp ho hr =>
-    rw [hprog] at hp
-    cases htodo : (serial (sinit sys) s.acqs).todo t with
-    | nil => rw [htodo] at hp; cases hp
-    | cons c r => rw [htodo, compile_cons] at hp; cases hp
-  | acquired c hp ho hv hr => rw [hprog] at hp; cases hp
-  | readDone c hp ho hreg hv hr =>
-    rw [hprog] at hp; injection hp with h1 _; injection h1 with h1 _; subst h1; exact hreg
-  | written l' hp ho hv hr => rw [hprog] at hp; cases hp
+  exact ((inv_reachable sys sched).thr t).reg_of_write hprog
 
 /-! ### no deadlock -/
 
@@ -626,19 +630,6 @@ theorem no_lost_update (sys : Sys) (hincr : AllIncr sys) (sched : List Nat) (l :
 
 /-! ### no lost update, at every moment -/
 
-theorem ThreadOk.reg_of_write {s : State} {S : SState} {t l : Nat} {f : Rmw} {rest : List Micro}
-    (h : ThreadOk s S t) (hprog : (s.thr t).prog = .write l f :: rest) : (s.thr t).reg = s.vals l := by
-  cases h with
-  | idle hp ho hr =>
-    rw [hprog] at hp
-    cases htodo : S.todo t with
-    | nil => rw [htodo] at hp; cases hp
-    | cons c r => rw [htodo, compile_cons] at hp; cases hp
-  | acquired c hp ho hv hr => rw [hprog] at hp; cases hp
-  | readDone c hp ho hreg hv hr =>
-    rw [hprog] at hp; injection hp with h1 _; injection h1 with h1 _; subst h1; exact hreg
-  | written l' hp ho hv hr => rw [hprog] at hp; cases hp
-
 theorem mem_compile_write {l : Nat} {f : Rmw} {script : List Closure}
     (h : Micro.write l f ∈ compile good script) : ∃ c, c ∈ script ∧ c.f = f := by
   induction script with
@@ -823,6 +814,35 @@ theorem serial_realisable (sys : Sys) (order : List Nat) :
   have h := quiet_serial order (s := init good sys) (S := sinit sys)
     ⟨fun _ => rfl, fun _ => rfl, fun _ => rfl, fun _ => rfl⟩
   exact ⟨h.vals, h.rets, h.prog⟩
+
+/-- **What `lockcheck` decides.**  An observed outcome (values returned to each thread, final lock
+values) is the outcome of some completed run of the model iff it is the outcome of some serial
+execution of all closures. -/
+theorem model_allows_iff_serial (sys : Sys) (obs : List (List Int) × List Int) :
+    (∃ sched, Finished sys.scripts.length (run (init LockGen.applyShape sys) sched) ∧
+        outcome sys (run (init LockGen.applyShape sys) sched) = obs) ↔
+    ∃ order, serialOutcome sys order = some obs := by
+  constructor
+  · intro ⟨sched, hF, ho⟩
+    exact ⟨_, by rw [serialisable_outcome sys sched hF, ho]⟩
+  · intro ⟨order, ho⟩
+    obtain ⟨sched, hv, hr, hp⟩ := serial_realisable sys order
+    unfold serialOutcome at ho
+    simp only [] at ho
+    split at ho
+    · rename_i hall
+      injection ho with ho
+      refine ⟨sched, ?_, ?_⟩
+      · intro t ht
+        have h0 : ((serial (sinit sys) order).todo t).isEmpty = true := by
+          simp only [List.all_eq_true] at hall; exact hall t (List.mem_range.mpr ht)
+        rw [hp t, List.isEmpty_iff.mp h0]; rfl
+      · rw [← ho]
+        unfold outcome
+        congr 1
+        · apply List.map_congr_left; intro t _; exact hr t
+        · apply List.map_congr_left; intro l _; exact hv l
+    · cases ho
 
 /-! ### progress: every reachable state can be run to completion -/
 
